@@ -410,8 +410,9 @@ def run_store(case, emb, pb):
     from frame.die.die import Die
     from frame.netlist.netlist import Netlist
     p = case["producer"]
-    tmp = tempfile.mkdtemp(prefix="st")
-    paths = {f: os.path.join(tmp, f"{f}.yaml") for f in ("P", "Q")}
+    # legal oddities in the names: blanks, dots, a non-ASCII letter, a leading digit, 'x' between numbers
+    tmp = tempfile.mkdtemp(prefix="frame designs \u00e9 v1.2 ")
+    paths = {"P": os.path.join(tmp, "30x20 die.rev2.yaml"), "Q": os.path.join(tmp, "7th netlist (final).yaml")}
     cur = 0
     out = []
 
@@ -602,7 +603,7 @@ def _catalogue():
         return {"name": n, "kind": k, "area": a, "center": c, "rects": r}
     base = [mod("A", [0, 0, 0, 0], [4, 1], [2, 2, 2], []),
             mod("B", [0, 0, 0, 0], [4, 1], [], [[2, 0, 4, 2, "dsp"]]),
-            mod("S", [0, 0, 0, 0], [6, 1], [], [[0, 2, 2, 4, "_"], [2, 2, 3, 4, "_"]]),
+            mod("S", [0, 0, 0, 0], [5, 1], [], [[0, 2, 2, 4, "_"], [2, 2, 3, 4, "_"]]),     # declared 5, rectangles cover 6
             mod("H", [1, 0, 0, 0], [0, 1], [], [[4, 0, 6, 2, "_"]]),
             mod("P", [1, 0, 0, 1], [0, 1], [], [[4, 2, 6, 4, "_"], [4, 4, 5, 5, "_"]]),
             mod("F", [1, 1, 0, 0], [0, 1], [], [[6, 0, 8, 2, "_"]]),
